@@ -56,6 +56,9 @@ def hostrace(seed, args, trace_path, timeout):
         raise vlib.ToolError(f"hostrace crashed rc={p.returncode}: " + p.stderr.decode()[-2000:])
     recs = vlib.json_lines(p.stdout)
     summary = [r for r in recs if r["kind"] == "summary"]
+    errs = [r for r in recs if r["kind"] == "harness_error"]
+    if errs:
+        raise vlib.ToolError("hostrace: the harness itself panicked: " + json.dumps(errs[0])[:1500])
     if not summary:
         raise vlib.ToolError("hostrace printed no summary")
     return summary[0], [r for r in recs if r["kind"] == "mismatch"]
@@ -285,9 +288,11 @@ def race_and_validate(out, seed, hr_args, name, timeout, selftest=False):
 def run(out, tier, seed):
     model_check(out, tier)
     nruns = 300 if tier == "quick" else 5000
-    jobs = max(1, min(4, vlib.NCPU // 5))
+    jobs = max(1, min(6, vlib.NCPU // 2 - 2))
     args = ["--runs", str(nruns), "--jobs", str(jobs)]
     summary, accepted = race_and_validate(out, seed, args, tier, timeout=600 if tier == "quick" else 3000, selftest=True)
+    if not summary["aborted"] and summary["runs"] != nruns:
+        raise vlib.ToolError(f"hostrace executed {summary['runs']} of {nruns} runs")
     if summary["runs"] and not summary["aborted"]:
         frac = summary["racing_runs"] / summary["runs"]
         if frac < 0.3:
